@@ -78,7 +78,8 @@ class World:
     def __init__(self, seed, scenario):
         self.seed = seed
         self.scn = scenario
-        self.now = 0.0
+        self._clock = None                   # executor-owned clock (trio)
+        self._now = 0.0
         self.tick = 0.0  # optional clock tick per monotonic() read
         self.streams = Streams(seed)
         self.ledger = Ledger(self)
@@ -98,6 +99,16 @@ class World:
         self.observing = False               # set while an oracle inspects the SUT
         self.fault_sites = []                # (op index, fault, op kind, httpcore site)
         self.log_sites = bool(scenario.get("log_sites"))
+
+    @property
+    def now(self):
+        c = self._clock
+        return self._now if c is None else c()
+
+    @now.setter
+    def now(self, v):
+        if self._clock is None:
+            self._now = v
 
     def rng(self, name):
         return self.streams.get(name)
